@@ -346,17 +346,22 @@ def run_update_race(res: Result, seed: int) -> None:
     res.evaluations += 1
     T = "_http._tcp.local."
     old = Svc(T, "race." + T, "race-host.local.", 8080, b"\x03a=1", [b"\x0a\x00\x00\x05"], [], 120, 4500)
-    change = rng.choice(["txt", "port", "both", "addr", "addr"])
-    if change == "addr":
+    change = rng.choice(["txt", "port", "both", "addr", "addr", "host"])
+    # a second service that keeps using the host name (and its address) through whatever happens to the first one
+    keeper = Svc(T, "keep." + T, "race-host.local.", 7070, b"", [b"\x0a\x00\x00\x05"], [], 120, 4500) if rng.random() < 0.5 else None
+    if change == "host":
+        # the service moves to another host name
+        new = Svc(T, "race." + T, "other-host.local.", 8080, b"\x03a=1", [b"\x0a\x00\x00\x07"], [], 120, 4500)
+    elif change == "addr":
         # the host gets another address (and an IPv6 one: the NSEC record of the old state disappears as well)
         new = Svc(T, "race." + T, "race-host.local.", 8080, b"\x03a=1", [b"\x0a\x00\x00\x06"], [b"\xfe\x80" + b"\0" * 13 + b"\x06"], 120, 4500)
     else:
         new = Svc(T, "race." + T, "race-host.local.", 8080 if change == "txt" else 9090, b"\x03a=1" if change == "port" else b"\x03a=2", [b"\x0a\x00\x00\x05"], [], 120, 4500)
     gap = rng.choice([300.0, 700.0, 1500.0, 3000.0])         # last announcement ... query (below 1000: protected queue)
     delta = rng.choice([1.0, 5.0, 15.0, 50.0, 100.0, 119.0, 200.0, 450.0, 900.0])     # query ... update
-    qkind = rng.choice(["ptr", "txt", "srv", "any", "multi", "a", "a"])
+    qkind = rng.choice(["ptr", "txt", "srv", "any", "multi", "a", "a"] + (["a+keep", "a+keep"] if keeper else []))
     api = rng.choice(["update", "update", "unregister"])
-    desc = {"update_race": True, "change": change, "gap": gap, "delta": delta, "question": qkind, "api": api}
+    desc = {"update_race": True, "change": change, "gap": gap, "delta": delta, "question": qkind, "api": api, "keeper": keeper is not None}
 
     def viol(kind: str, detail: str, **sig: Any) -> None:
         res.violation("c03.wire", kind, detail, dict(sig, family="update_race"), {"seed": seed, "update_race": True, "scenario": desc})
@@ -370,8 +375,12 @@ def run_update_race(res: Result, seed: int) -> None:
             info_old = R.make_info(old)
             t = await zc.async_register_service(info_old, cooperating_responders=True)
             await t
+            if keeper is not None:
+                t = await zc.async_register_service(R.make_info(keeper), cooperating_responders=True)
+                await t
             await sim.sleep_ms(gap)
-            qs = {"ptr": [(T, 12, False)], "txt": [(old.name, 16, False)], "srv": [(old.name, 33, False)], "any": [(old.name, 255, False)],
+            out["Q"] = sim.now_ms()
+            qs = {"a+keep": [(old.server, 1, False), ("keep." + T, 33, False)], "ptr": [(T, 12, False)], "txt": [(old.name, 16, False)], "srv": [(old.name, 33, False)], "any": [(old.name, 255, False)],
                   "multi": [(T, 12, False), (old.name, 16, False)], "a": [(old.server, 1, False)]}[qkind]
             sim.net.inject_now(host, R.build_query(qs, id_=7), ("10.0.0.50", 5353))
             await sim.sleep_ms(delta)
@@ -392,6 +401,19 @@ def run_update_race(res: Result, seed: int) -> None:
     res.mon("c03.wire")
     res.mon("c03.wire.update_race")
     gone = ({old.srv(), old.txt()} | old.addr_and_nsec()) - (({new.srv(), new.txt()} | new.addr_and_nsec()) if api == "update" else set())
+    if keeper is not None:
+        gone -= {keeper.srv(), keeper.txt()} | keeper.addr_and_nsec()
+        if qkind in ("a", "a+keep"):
+            # the other way round: what the remaining service still owns is owed to the query that asked for it, whatever
+            # happens to the first service meanwhile (aggregation: 500 ms, one-second protection: 1200 ms after the query)
+            res.mon("c03.wire.update_race.kept")
+            owed = ("A", "race-host.local.", (b"\x0a\x00\x00\x05",))
+            seen = [e["t"] - out["Q"] for e in sim.net.trace if e["t"] >= out["Q"] - 1e-6 and e["mcast"] and e["host"] == "H"
+                    for m in [wire.parse(e["data"], strict=True)] if m.is_response
+                    for r in m.answers if r.ttl > 0 and R.ident_of_wire(r) == owed]
+            if not [x for x in seen if x <= 1300.0]:
+                viol("answer_of_remaining_service_lost", "%s (%s) issued %.0f ms after a query for the address of race-host.local.: the address record, still owned by "
+                     "keep.%s, was not multicast within 1.3 s of the query (seen at %r ms)" % (api, change, delta, T, [round(x) for x in seen][:3]), api=api, change=change)
     for e in sim.net.trace[out["mark"]:]:
         m = wire.parse(e["data"], strict=True)
         if not m.is_response:
